@@ -1,7 +1,9 @@
 (** * C05 — Rectangles are recognised completely and only where a box is drawn.
-    Statements only; proofs in Theory/RectTheory.v, Theory/LineMergeTheory.v, Theory/ShiftEndorse.v. *)
+    Statements only; proofs in Theory/RectTheory.v, Theory/LineMergeTheory.v, Theory/ShiftEndorse.v,
+    Theory/BoxSweep.v. *)
 Require Import SB.Model.Base SB.Model.Geom SB.Model.Fragment SB.Model.Merge SB.Model.FragBuf SB.Model.Endorse
-  SB.Theory.RectTheory SB.Theory.LineMergeTheory SB.Theory.ShiftTheory SB.Theory.ShiftFrag SB.Theory.ShiftBuf SB.Theory.ShiftEndorse.
+  SB.Theory.RectTheory SB.Theory.LineMergeTheory SB.Theory.ShiftTheory SB.Theory.ShiftFrag SB.Theory.ShiftBuf SB.Theory.ShiftEndorse
+  SB.Theory.SepTheory SB.Theory.SepOrder SB.Theory.BoxSweep.
 
 (** Soundness.  [is_rect] answers yes only for exactly four fragments of which four (by index)
     are lines that form the outline of their bounding box: a non-degenerate box whose top,
@@ -46,9 +48,31 @@ Theorem C05_recognition_anywhere :
     contacts_endorse_rect (shift_contacts k n c) = map_res (shift_ofrag k n) (contacts_endorse_rect c).
 Proof. exact contacts_endorse_rect_shift. Qed.
 
-(** Completeness for every size and style (the tables give, for a box drawing, exactly four
-    edge lines and, for rounded corners, four quarter arcs in one contact group) is decided by
-    the correspondence and the oracle of this check on boxes 0..60 x 0..30. *)
+(** Completeness, by a sweep of the model over a stated finite range (re-run whenever the tables
+    are regenerated): every box of the eight standard styles ([styles]: sharp, sharp with ~,
+    rounded . ' and , `, rounded with ~, box drawing, rounded box drawing, dashed box drawing)
+    with up to 16 x 8 interior cells (a rounded box needs one column between its corners) is
+    recognised as exactly one rectangle through the centres of its border cells, with the corner
+    radius of its style and dashed iff it has a dashed edge, and nothing else. *)
+Theorem C05_boxes_are_recognised :
+  forall s w h, In s styles -> (wmin s <= w <= 16)%nat -> (h <= 8)%nat ->
+    exists sp, endorse_cells (box_cells s w h) = Ok ([FS sp (FRect (expected s w h))], []).
+Proof. exact box_recognised. Qed.
+Check C05_boxes_are_recognised :
+  forall s w h, In s styles -> (wmin s <= w <= 16)%nat -> (h <= 8)%nat ->
+    exists sp, endorse_cells (box_cells s w h) = Ok ([FS sp (FRect (expected s w h))], []).
+(** ... anywhere on the page and next to anything that does not touch it (any cell map of which
+    the moved box is a separated part): exactly that rectangle, moved, comes from its cells *)
+Theorem C05_boxes_are_recognised_anywhere_in_context :
+  forall s w h (k n : Z) (inA : cell -> bool) cells acc groups,
+    In s styles -> (wmin s <= w <= 16)%nat -> (h <= 8)%nat ->
+    separated inA cells -> filter (fun e => inA (fst e)) cells = map (shift_cc k n) (box_cells s w h) ->
+    endorse_cells cells = Ok (acc, groups) ->
+    exists sp, filter (fsside inA) acc = [FS (shift_span k n sp) (shift_frag k n (FRect (expected s w h)))]
+               /\ filter (cside inA) groups = [].
+Proof. exact box_recognised_in_context. Qed.
+(** Larger boxes (to 60 x 30), sides with dashed stretches and interior text are decided by the
+    correspondence and the oracle of this check. *)
 Example C05_nonvacuous :
   is_rect [FLine (Line (P 20 40) (P 140 40) false); FLine (Line (P 20 40) (P 20 200) false);
            FLine (Line (P 140 40) (P 140 200) false); FLine (Line (P 20 200) (P 140 200) false)] = Ok true.
